@@ -249,11 +249,12 @@ def chk_case(inp, c):
             if "band" in verdicts:
                 c.inconclusive("L1 request at the edge of feasibility")
         c.fail(f"ReceptorEstimator.minimize_variance raised {type(exc).__name__}: {str(exc)[:120]}",
-               mechanism=f"raise:{type(exc).__name__}:feasible-request:" +
-               ("with-out-of-gamut-row" if "out" in inp["classes"] else "all-in-gamut") +
                # a numerical solver failure with default settings is repaired in the repository (SCS fall-back): only a
-               # failure of a solver the caller chose is a listed finding
-               (":explicit-solver" if (type(exc).__name__ == "SolverError" and inp["solver"] != "default") else ""),
+               # failure of a solver the caller chose is a listed finding (one key, whatever the targets)
+               mechanism=("raise:SolverError:feasible-request:explicit-solver"
+                          if (type(exc).__name__ == "SolverError" and inp["solver"] != "default") else
+                          f"raise:{type(exc).__name__}:feasible-request:" +
+                          ("with-out-of-gamut-row" if "out" in inp["classes"] else "all-in-gamut")),
                l1=inp["l1kind"], solver=inp["solver"])
     if not c.require(isinstance(out, tuple) and len(out) == 3, "returns (X, B_pred, B_var)", mechanism="return-type"):
         return
@@ -309,9 +310,16 @@ def chk_case(inp, c):
         tolv = 2e-3 * (1 + var)
         if L1r is None:
             vfit = float(np.sum(evec * Xfit[r] ** 2))
-            c.require(var <= vfit + tolv + 2 * float(np.sum(evec * np.abs(Xfit[r]))) * tau_e,
-                      "variance is never larger than that of the ordinary fit", mechanism="variance-above-ordinary-fit",
-                      row=r, var=var, var_fit=vfit)
+            allow = tolv + 2 * float(np.sum(evec * np.abs(Xfit[r]))) * tau_e
+            efit = oracles.werr(Mt, c0, Xfit[r], b, w)
+            if efit > e + 1e-9 * (1 + e):
+                # the ordinary fit (same solver settings) is itself further from the target than the variance-minimised
+                # solution: it lies outside the set over which the variance was minimised, so its variance proves nothing
+                c.cell("ordinary-fit-worse-than-mv-solution")
+            else:
+                c.require(var <= vfit + allow,
+                          "variance is never larger than that of the ordinary fit",
+                          mechanism=mech("variance-above-ordinary-fit", (var - vfit) / allow), row=r, var=var, var_fit=vfit)
         # the L1 window may be incompatible with the error bound: then dreye may legitimately fail; here it returned
         # the attainable error is itself only known to the procedure up to its first-stage solver accuracy: the witness
         # must meet the error bound shrunk by that accuracy (it is then feasible for the procedure's own budget as well)
@@ -326,7 +334,8 @@ def chk_case(inp, c):
         gaps.append(var - vw)
         c.margin("variance gap / tol", var - vw, tolv)
         c.require(var - vw <= tolv, "summed capture variance is minimal among all intensities meeting the conditions",
-                  mechanism="variance-not-minimal", row=r, var=var, var_witness=vw, witness_x=xw, x=x, cls=inp["classes"][r])
+                  mechanism=mech("variance-not-minimal", (var - vw) / tolv), row=r, var=var, var_witness=vw, witness_x=xw, x=x,
+                  cls=inp["classes"][r])
     c.nontrivial(n > m or "out" in inp["classes"] or inp["L1"] is not None)
     c.note("variance_gap_vs_witness", gaps)
     c.note("first_row", {"x": X[0], "B_var": Bv[0], "eps_kind": ek})
